@@ -16,6 +16,8 @@
 import SfModel.Basic
 import SfModel.Small2
 import SfModel.Htk
+import SfModel.Wve
+import SfModel.Mpc2k
 import Driver.Util
 open Sf (hexBytes hexFixed parseHexBytes parseHexNat Byte)
 open Sf.Small2
@@ -62,9 +64,28 @@ def htk : Container :=
         some (if (preHtk a (be32 (Sf.Htk.period (sr.toNat?.getD 1))) [0, 2, 0, 0]).isSome then "1" else "0")
       | _ => none }
 
+def endianOf (toks : List String) : Nat := kvNat toks "endian" 0
+
+def wve : Container :=
+  { fmtOf := fun toks =>
+      if hexKey toks "codec" = 0x11 ∧ kvNat toks "ch" 1 = 1 ∧ endianOf toks < 2 then some Sf.Wve.fmt else none,
+    parse := Sf.Wve.parse,
+    quant := Sf.Wve.quant }
+
+def mpc2k : Container :=
+  { fmtOf := fun toks =>
+      let c : Sf.Mpc2k.Cfg :=
+        { ch := kvNat toks "ch" 1, sr := kvNat toks "sr" 1,
+          name := match kvGet toks "name" with | some h => parseHexBytes h | none => List.replicate 17 0x20 }
+      if hexKey toks "codec" = 2 ∧ endianOf toks < 2 ∧ decide c.wf then some (Sf.Mpc2k.fmt c) else none,
+    parse := Sf.Mpc2k.parse,
+    quant := Sf.Mpc2k.quant }
+
 def containerOf (name : String) : Option Container :=
   match name with
   | "htk" => some htk
+  | "wve" => some wve
+  | "mpc2k" => some mpc2k
   | _ => none
 
 def answer (C : Container) (line : String) : String :=
